@@ -82,7 +82,10 @@ def judge(ctx, recs, label=None):
     r = ctx.tlc("Trace_PkixName", "PkixName_judge.cfg", timeout=3000, label=label or "Trace_PkixName[%d names]" % len(recs))
     if r.distinct != max(1, len(recs)):
         raise Machinery("Trace_PkixName visited %d states for %d records" % (r.distinct, len(recs)))
-    return sorted((int(m.group(1)), m.group(2)) for m in re.finditer(r'<<"REJECT", (\d+), "([^"]*)">>', r.out))
+    try:
+        return derlib.rejects(r.out, 1)
+    except ValueError as e:
+        raise Machinery(str(e))
 
 
 def reproduce_obs(ctx, binary, path):
@@ -114,6 +117,8 @@ def selftest(ctx, recs):
 
 
 def replay(ctx, path):
+    import os
+    path = os.path.abspath(path)
     binary = ctx.gobuild("c22")
     body = json.load(open(path))
     if body.get("case", {}).get("obs"):
